@@ -4,6 +4,7 @@ import (
 	"bytes"
 	"fmt"
 	"sync"
+	stdatomic "sync/atomic"
 
 	"github.com/gammazero/deque"
 	"github.com/go-logr/logr"
@@ -26,7 +27,9 @@ type clientConfigSessionHandler struct {
 	player *connectedPlayer
 	log    logr.Logger
 
-	configSwitchDone future.Future[any]
+	// Replaced (never overwritten in place) for every configuration phase: the previous
+	// phase's future may still be locked by a goroutine running its callbacks.
+	configSwitchDone stdatomic.Pointer[future.Future[any]]
 
 	mu struct {
 		sync.Mutex
@@ -71,7 +74,7 @@ func (h *clientConfigSessionHandler) HandlePacket(pc *proto.PacketContext) {
 		}
 	case *config.FinishedUpdate:
 		h.player.SetActiveSessionHandler(state.Play, newClientPlaySessionHandler(h.player))
-		h.configSwitchDone.Complete(nil)
+		h.switchDone().Complete(nil)
 	case *plugin.Message:
 		h.handlePluginMessage(p)
 	case *packet.PingIdentify:
@@ -90,6 +93,15 @@ func (h *clientConfigSessionHandler) HandlePacket(pc *proto.PacketContext) {
 	}
 }
 
+// switchDone returns the future of the current configuration phase.
+func (h *clientConfigSessionHandler) switchDone() *future.Future[any] {
+	if f := h.configSwitchDone.Load(); f != nil {
+		return f
+	}
+	h.configSwitchDone.CompareAndSwap(nil, future.New[any]())
+	return h.configSwitchDone.Load()
+}
+
 // handleBackendFinishUpdate handles the backend finishing the config stage.
 func (h *clientConfigSessionHandler) handleBackendFinishUpdate(serverConn *serverConnection, p *config.FinishedUpdate) *future.Future[any] {
 	_, ok := serverConn.ensureConnected()
@@ -106,7 +118,7 @@ func (h *clientConfigSessionHandler) handleBackendFinishUpdate(serverConn *serve
 	}
 	h.player.SetOutboundState(state.Play)
 
-	return &h.configSwitchDone
+	return h.switchDone()
 }
 
 func handleResourcePackResponse(p *packet.ResourcePackResponse, handler resourcepack.Handler, log logr.Logger) bool {
@@ -304,7 +316,7 @@ func (h *clientConfigSessionHandler) reconfigure(target *serverConnection) {
 	// FinishedUpdate would be acknowledged right away instead of after the client
 	// acknowledged it, and config packets the client still sends would reach a
 	// backend that is already in the play state.
-	h.configSwitchDone = future.Future[any]{}
+	h.configSwitchDone.Store(future.New[any]())
 	// The previous phase's server is still recorded as the ready one, so plugin
 	// messages for the new target would be queued for a flush that only happens at
 	// the initial login. The target is past its login: flush and forward directly.
